@@ -43,6 +43,14 @@ def make_cases(run):
     cases.append(("b:no-include-disallowed", [two] + full + ["shmem 1"], "boundary"))
     cases.append(("b:stale-caches", ["flags 1", two] + full + ["pre robj 1001 0 0", "shmem 0"], "boundary"))
     cases.append(("b:plain-pu1", ["src synthetic pu:1", "shmem 0"], "boundary"))
+    # previous content of the target region / republishing at the same offset and address
+    for k, seed in ((0, 2), (1, 7), (3, 12)):
+        cases.append(("b:republish%d" % k, ["flags 1", two] + full + ["republish %d %d" % (k, seed)], "republish"))
+    cases.append(("b:republish-pu1", ["src synthetic pu:1", "republish 1 5"], "republish"))
+    for i in range(12 if quick else 400):
+        desc = rng.choice(G.SYN) if rng.random() < 0.5 else S.gen_synthetic(rng, max_pus=32)
+        pre = [l for l in G.gen_history(rng, False, npre=rng.randint(0, 4), nmut=0) if l.startswith("pre ")]
+        cases.append(("republish%d:%s" % (i, desc), ["flags %d" % rng.choice([0, 1]), "src synthetic " + desc] + pre + ["republish %d %d" % (rng.randint(0, 3), rng.randint(0, 999))], "republish"))
     # size sweep: 536 consecutive sizes 8 bytes apart: (header + body) visits every 8-byte residue of the page, each size
     # with get_length == model value (no slack) and the write next to the PROT_NONE page
     for lo in range(0, 536, 67):
@@ -190,6 +198,17 @@ def findings_of(r, expect, cfg_lines):
                 out.append(("adopted-fault:" + nm, "%s on an adopted topology faults / aborts (%s)" % (nm, word), False))
             if exp is not None and exp != code and not (exp in (1, 22, 16) and code in (1, 22, 16)) and not (nm in MODIFIERS and exp == 999 and code == 0):
                 out.append(("correspondence:call:" + nm, "model outcome %d, implementation %s" % (exp, l), True))
+        elif l.startswith("rewrite ") and "rc=0" not in l:
+            lab = l.split(" ")[1]
+            out.append(("rewrite-fails:" + re.sub(r"^republish\d+", "republish", lab.split(":")[0]), "hwloc_shmem_topology_write over a target region with previous content (%s): %s" % (lab, l), False))
+        elif l.startswith("image ") and " same" not in l:
+            lab = l.split(" ")[1]
+            out.append(("image-depends-on-previous-content:" + re.sub(r"^republish\d+", "republish", lab.split(":")[0]), "the image written depends on what the file held before (%s): %s" % (lab, l), False))
+        elif l.startswith("readopt ") and "obscmp same" not in l:
+            lab = l.split(" ")[1]
+            out.append(("readopt:" + re.sub(r"^republish\d+", "republish", lab.split(":")[0]), "adopting what was written over previous content (%s) fails / differs from the original: %s" % (lab, l[:300]), False))
+        elif l.startswith("republish ") and l.split(" ")[1] in ("bad", "dup-failed", "length-failed"):
+            out.append(("correspondence:republish", l, True))
         elif l.startswith("destroyed ") and "unmapped=yes" not in l:
             out.append(("destroy-leaves-mapping", l, False))
     if "crash" in r:
@@ -214,10 +233,13 @@ def check(run, replay=None):
         if r is None:
             run.violation("not-run:" + kind, "case did not run (earlier crash in the same shard)", script, no_input=True)
             continue
-        adopted = any(l.startswith("adopt rc=0") for l in r["lines"]) or (kind == "sweep" and any(l.startswith("write rc=0") for l in r["lines"]))
+        adopted = any(l.startswith("adopt rc=0") for l in r["lines"]) or (kind == "sweep" and any(l.startswith("write rc=0") for l in r["lines"])) \
+            or (kind == "republish" and any(l.startswith("readopt ") and "obscmp same" in l for l in r["lines"]))
+        if kind == "republish":
+            run.bump("rewrites-over-previous-content", sum(1 for l in r["lines"] if l.startswith("rewrite ")))
         if kind == "sweep":
             run.bump("sweep-sizes", sum(1 for l in r["lines"] if l.startswith("sweep step=")))
-        run.count(name + "|" + "|".join(l for l in r["lines"] if l.startswith(("len ", "used ", "file ", "reject ", "adopt ", "obscmp ", "call ", "destroyed"))),
+        run.count(name + "|" + "|".join(l for l in r["lines"] if l.startswith(("len ", "used ", "file ", "reject ", "adopt ", "obscmp ", "call ", "destroyed", "rewrite ", "image ", "readopt "))),
                   nontrivial=adopted, sample={"case": name, "lines": [l[:100] for l in r["lines"] if l.startswith(("length ", "file ", "adopt ", "obscmp "))][:5]},
                   kind=kind + (":adopted" if adopted else ":not-adopted"))
         run.bump("calls-on-adopted", sum(1 for l in r["lines"] if l.startswith("call ")))
